@@ -23,7 +23,11 @@ STARTS == << <<97>>,                                                          \*
              <<97,32,120,109,108,110,115,58,112,61,34,34>>,                   \* a xmlns:p=""
              <<112,58,97,13,10,120,109,108,110,115,58,112,61,34,117,34,10,9,120,109,108,110,115,61,34,118,34>>,  \* p:a CR LF xmlns:p="u" LF TAB xmlns="v"
              <<97,32,120,109,108,110,115,58,112,61,34,117,34,32,120,109,108,110,115,58,112,61,34,118,34>>,  \* a xmlns:p="u" xmlns:p="v"
-             <<97,32,120,109,108,110,115,58,113,61,34,117,34,32,112,58,107,61,34,49,34>> >>                 \* a xmlns:q="u" p:k="1"
+             <<97,32,120,109,108,110,115,58,113,61,34,117,34,32,112,58,107,61,34,49,34>>,                   \* a xmlns:q="u" p:k="1"
+             \* the reserved prefix re-declared with its own name (legal, stores nothing) FOLLOWED by another declaration
+             <<97,32,120,109,108,110,115,58,120,109,108,61,34,104,116,116,112,58,47,47,119,119,119,46,119,51,46,111,114,103,47,88,77,76,47,49,57,57,56,47,110,97,109,101,115,112,97,99,101,34,32,120,109,108,110,115,58,112,61,34,117,34>>,    \* a xmlns:xml="http://www.w3.org/XML/1998/namespace" xmlns:p="u"
+             \* a declaration followed by an illegal binding of the reserved prefix (the resolver reports it; what was pushed before stays)
+             <<97,32,120,109,108,110,115,58,112,61,34,117,34,32,120,109,108,110,115,58,120,109,108,61,34,118,34>> >>  \* a xmlns:p="u" xmlns:xml="v"
 NameOfStart(i) == IF i \in {2, 8} THEN <<112,58,97>> ELSE <<97>>
 \* a fragment: <<"S", i>> start i, <<"E">> end of the innermost open, <<"M", i>> empty element i, <<"T">> text
 FragSet == {<<"S", i>> : i \in 1..Len(STARTS)} \cup {<<"E", 0>>, <<"T", 0>>} \cup {<<"M", i>> : i \in {1, 2, 5, 8}}
